@@ -189,5 +189,17 @@ m('C20', B, '\t\tscRef.subConn.UpdateAddresses(addrs)\n\t\tscRef.subConn.Connect
 m('C20', B, '\tfor sc := range gb.refreshingScRefs {\n\t\tsc.UpdateAddresses(addrs)\n\t\tsc.Connect()\n\t}\n', '', 'in-flight replacements keep the old addresses (F17)')
 m('C20', B, '\tgb.log.Warningf("ResolverError: %v", err)', '\tgb.log.Warningf("ResolverError: %v", err)\n\tgb.mu.Lock()\n\tgb.addrs = nil\n\tgb.mu.Unlock()', 'resolver error clears the address list')
 
+# ---------------- added after the independent seeded changes (wave 1)
+m('C11', P, '\t\tkk, err := keysFromMessage(valField.Index(i), path, start+1)', '\t\tif el := valField.Index(i); el.Kind() == reflect.Pointer && el.IsNil() {\n\t\t\tcontinue\n\t\t}\n\t\tkk, err := keysFromMessage(valField.Index(i), path, start+1)', 'nil elements of a repeated field are skipped instead of being an error (seed C11-1)')
+m('C14', M, 'exists && c.status != unavailable && c.priority < e.priority {', 'exists && c.status == available && c.priority < e.priority {', 'outdated delayed switch cuts a recovery window short (seed C14-1)')
+m('C14', M, 'exists && c.status != unavailable && c.priority < e.priority {', 'exists && (c.status == available || c.status == recovering) && c.priority < e.priority {', 'delayed-switch guard spelled by enumeration', 'silent')
+m('C14', M, 'exists && c.status != unavailable && c.priority < e.priority {', 'exists && c.priority < e.priority && !(c.status == unavailable) {', 'delayed-switch guard reordered', 'silent')
+m('C13', M, '\tif ee.status != available {\n\t\treturn\n\t}\n', '\tif ee.status == recovering {\n\t\treturn\n\t}\n', 'an endpoint known to be unavailable re-enters recovering on a repeated report (seed C13-1)')
+m('C13', M, '\t\tif e.lastChange != stateChange {\n\t\t\t// This timer is outdated.\n\t\t\treturn\n\t\t}', '\t\tif e.lastChange != stateChange && e.status != recovering {\n\t\t\t// This timer is outdated.\n\t\t\treturn\n\t\t}', 'outdated recovery timer marks a recovering endpoint unavailable')
+m('C13', M, '\tif ee.status != available {\n\t\treturn\n\t}\n', '\tif ee.status == unavailable || ee.status == recovering {\n\t\treturn\n\t}\n', 'no-extend guard spelled by enumeration', 'silent')
+m('C13', M, 'if exists && c.status == recovering && (topA == nil || topA.priority > c.priority) {', 'if exists && c.status != available && c.status != unavailable && (topA == nil || topA.priority > c.priority) {', 'keep-recovering guard spelled by exclusion', 'silent')
+m('C13', M, 'if e.status == available && (topA == nil || topA.priority > e.priority) {', 'if !(e.status == unavailable || e.status == recovering) && (topA == nil || topA.priority > e.priority) {', 'availability test spelled by exclusion', 'silent')
+m('C14', M, 'if me.switchingDelay == 0 || f == nil || f.status == unavailable {', 'if me.switchingDelay == 0 || f == nil || (f.status != available && f.status != recovering) {', 'immediate-switch guard spelled by exclusion', 'silent')
+
 json.dump(T, open('/verif/checker/mutants.json', 'w'), indent=0)
 print(len(T), 'mutants')
